@@ -97,16 +97,27 @@ Theorem C14_epub_xlsx_legacy_refuted :
 Proof. split; vm_compute; discriminate. Qed.
 Print Assumptions C14_epub_xlsx_legacy_refuted.
 
-(* ---- ODF: the href is used verbatim as the member name (current code, not repaired) *)
-Theorem C14_odf_href_refuted :
-  exists href, is_abs href = false /\ odf_member href <> resolve_part [] href.
+(* ---- ODF before fixes/C14-odf-href-and-ods-counter.patch: the href was used verbatim as the member name;
+   the repaired extractors call odf_member_name = resolve_part_name("", href), i.e. Model.odf_member *)
+Theorem C14_odf_href_legacy_refuted :
+  exists href, is_abs href = false /\ odf_legacy href <> resolve_part [] href.
 Proof. exists (s "./Pictures/a.png"). split; [reflexivity | vm_compute; discriminate]. Qed.
-Print Assumptions C14_odf_href_refuted.
+Print Assumptions C14_odf_href_legacy_refuted.
 
-Theorem C14_odf_href_partial :
-  forall href, is_abs href = false -> forallb seg_clean (split_slash href) = true -> odf_member href = resolve_part [] href.
-Proof. exact odf_member_relative. Qed.
-Print Assumptions C14_odf_href_partial.
+Theorem C14_odf_href_legacy_partial :
+  forall href, is_abs href = false -> forallb seg_clean (split_slash href) = true -> odf_legacy href = resolve_part [] href.
+Proof. exact odf_legacy_relative. Qed.
+Print Assumptions C14_odf_href_legacy_partial.
+(* repaired: an ODF href names the part it designates from the package root, "./" and "x/../" included *)
+Theorem C14_odf_href_resolved :
+  forall href out, resolves_spec [] href out <-> out = resolve_segs [] href.
+Proof. exact (resolve_segs_spec []). Qed.
+Print Assumptions C14_odf_href_resolved.
+Example C14_odf_href_examples :
+  odf_member (s "./Pictures/a.png") = s "Pictures/a.png" /\ odf_member (s "Pictures/a.png") = s "Pictures/a.png"
+  /\ odf_member (s "Pictures/x/../a.png") = s "Pictures/a.png".
+Proof. vm_compute. repeat split. Qed.
+Print Assumptions C14_odf_href_examples.
 Example C14_odf_href_partial_nonvacuous :
   is_abs (s "Pictures/a.png") = false /\ forallb seg_clean (split_slash (s "Pictures/a.png")) = true.
 Proof. vm_compute. auto. Qed.
@@ -156,6 +167,27 @@ Example C14_sniff_jpeg_nonvacuous :
 Proof. vm_compute. auto. Qed.
 Print Assumptions C14_sniff_jpeg_nonvacuous.
 
+(* the same for util/image_utils.get_image_dimensions(data, "jpeg"): its loop condition `offset < len(data) - 9`
+   additionally needs one byte after the 9 bytes read of the SOF segment *)
+Theorem C14_sniff_jpeg_util :
+  forall segs m prec h w tail rest,
+    forallb seg_ok segs = true -> is_sof m = true -> 0 <= h < 65536 -> 0 <= w < 65536 -> len tail < 65529 ->
+    1 <= len tail + len rest ->
+    util_dims K_jpeg (jpeg_file segs m prec h w tail rest) = Dims (Some w) (Some h).
+Proof. exact jpeg_header_ok_util. Qed.
+Print Assumptions C14_sniff_jpeg_util.
+Example C14_sniff_jpeg_util_nonvacuous :
+  1 <= len [1; 1; 17; 0] + len [255; 217]
+  /\ util_dims K_jpeg (jpeg_file [(224, [74; 70; 73; 70; 0]); (219, [0; 1; 1])] 194 8 5 7 [1; 1; 17; 0] [255; 217]) = Dims (Some 7) (Some 5).
+Proof. vm_compute. split; [discriminate | reflexivity]. Qed.
+Print Assumptions C14_sniff_jpeg_util_nonvacuous.
+(* the extra premise is needed: a file that ends right after the SOF header is sized by the ooxml copies only *)
+Example C14_sniff_jpeg_util_needs_a_following_byte :
+  util_dims K_jpeg (jpeg_file [] 192 8 5 7 [] []) = Dims None None
+  /\ ooxml_dims (jpeg_file [] 192 8 5 7 [] []) = Dims (Some 7) (Some 5).
+Proof. vm_compute. split; reflexivity. Qed.
+Print Assumptions C14_sniff_jpeg_util_needs_a_following_byte.
+
 (* ================= 3. numbering and pass-through ================= *)
 (* found-only counter (docx, pptx slide, xlsx, odp, epub): numbers k+1..k+n, payloads = the found media in
    document order, untouched (B is opaque: the model cannot transform the bytes), nothing else returned *)
@@ -190,7 +222,8 @@ Theorem C14_restart_numbers_partial :
 Proof. intros A B fetch units u. exact (conj (restart_unit_payload A B fetch units) (restart_single A B fetch u)). Qed.
 Print Assumptions C14_restart_numbers_partial.
 
-(* ods: the counter is incremented before the existence check — a missing member leaves a gap *)
+(* ods before fixes/C14-odf-href-and-ods-counter.patch: the counter was incremented before the existence check —
+   a missing member left a gap; the repaired loop is the found-only counter of C14_image_numbers/C14_running_numbers *)
 Theorem C14_ods_numbers_refuted :
   exists (l : list bool) (fetch : bool -> option bool),
     map fst (number_all fetch 0 l) <> zseq 0 (List.length (number_all fetch 0 l)).
